@@ -14,16 +14,21 @@ class Check(PropertyCheck):
     prop = "C53"
     design_ref = "§5 C53"
     level_text = ("Lean theorems (sequential, queue_order, unreplayable_never_queued, stop_restores_queued_partial + "
-                  "_counterexample) about a model of ClientPlayback (check, start_replay's preparation, stop_replay's "
+                  "_counterexample; liveness: replay_variant_decreases, replay_run_bounded, terminal_event_enabled, "
+                  "finish_sets_outcome, every_replay_completes, fair_completion_exists) about a model of ClientPlayback (check, start_replay's preparation, stop_replay's "
                   "revert, the playback loop with concurrency 1, ReplayHandler.done) and of Flow.backup/revert, for EVERY "
                   "history of submissions, stops, user edits, loop steps and replay outcomes (induction over the "
                   "history). The model is tied to the real ClientPlayback + ReplayHandler + HTTP layer running on a "
                   "virtual-time loop against an in-memory server: every real queue take, request arrival and "
                   "response/error completion is replayed in the compiled model and queue / inflight / per-flow state are "
                   "compared after every environment step; check() verdicts are compared per flow.")
-    level_note = ("partial: 'every replayed flow ends with a response or an error' is liveness — explored (every script ends "
-                  "with the server refusing/closing everything pending and the oracle then demands a completion for every "
-                  "replay taken), not proved. stop_restores_queued holds only for flows without an older backup (finding "
+    level_note = ("'every replayed flow ends with a response or an error' is proved ABOUT THE MODEL under an explicit fairness "
+                  "hypothesis (the history continues with loop/server operations until no terminal event is enabled: the "
+                  "server answers, refuses or drops everything pending): a variant decreases on every loop/server "
+                  "operation, a terminal event is always enabled while work is left, hence every started replay has its "
+                  "fin. That the real ReplayHandler turns every server outcome into a response/error hook (timeouts, "
+                  "half-open peers) is exercised by the winddown of every script and compared through the variant value "
+                  "at every step, not proved. stop_restores_queued holds only for flows without an older backup (finding "
                   "F-C53a: Flow.backup() keeps an existing backup); the full statement is refuted by "
                   "stop_restores_queued_counterexample. trusted: asyncio.Queue is FIFO; a flow's editable state is "
                   "abstracted to response/error/is_replay + an edit counter; flow.live during a replay is not modelled "
@@ -159,11 +164,17 @@ class Check(PropertyCheck):
 
     def impl_view(self, case, obs):
         states, checks = [], []
+        sent = False
         for r in obs["trace"]:
-            if r[0] == "state":
+            if r[0] == "take": sent = False
+            elif r[0] == "arrive": sent = True
+            elif r[0] == "state":
                 q = ",".join(map(str, r[1])) or "-"
                 fl = ";".join(".".join(map(str, f)) for f in r[3]) or "-"
-                states.append(f"{q} {r[2]} {fl}")
+                # the liveness variant, computed from the REAL addon state: 3 per queued flow, 2 for a taken replay,
+                # 1 for a replay whose request has reached the server
+                v = 3 * len(r[1]) + (0 if r[2] == -1 else (1 if sent else 2))
+                states.append(f"{q} {r[2]} {fl}|v{v}")
             elif r[0] == "start":
                 # the verdict for a flow listed twice is taken once before the call; the model is asked before the call too
                 checks.extend(r[3])
